@@ -65,6 +65,8 @@ GSetMin == \E ver \in GenVersions \ {0}, d \in {0, 5, 100} :
 
 GNext ==
   CASE Family = "snap"   -> GBuild \/ GSetOnChain \/ GPublish \/ GRegister \/ GActivate \/ GDelegate \/ GJailF \/ GUnjail \/ GStakingEB
+    \* the same plus key rotation / traits / balance reports (random walks)
+    [] Family = "snapx"  -> GBuild \/ GSetOnChain \/ GPublish \/ GRegister \/ GActivate \/ GDelegate \/ GJailF \/ GUnjail \/ GStakingEB
                             \/ GRotate \/ GSetBalance
     \* touch family: the account records change AFTER snapshots were built (balance report, rotated key, traits)
     [] Family = "touch"  -> GBuild \/ GSetOnChainCur \/ GRotate \/ GSetBalance \/ GActivate \/ GPublish
@@ -78,7 +80,7 @@ GNext ==
     [] OTHER -> FALSE
 
 AllAccts == [v \in Vals |-> Chains]
-SnapFamilies == {"snap", "proj", "touch", "shrink"}
+SnapFamilies == {"snap", "snapx", "proj", "touch", "shrink"}
 \* registration profiles of the world: everybody on every chain / everybody on the first chain only
 RegProfiles == IF Family = "shrink" THEN {"all", "first"} ELSE {"all"}
 RegOf(p) == IF p = "all" THEN AllAccts ELSE [v \in Vals |-> {MinOf(Chains)}]
@@ -91,7 +93,7 @@ Last == hist[Len(hist)]
 GView == <<Last, mark, stakingVars, snapVars, aliveVars, now>>
 GConstr == Len(hist) <= MaxOps + 1
 EmitCond == /\ Len(hist) >= 4
-            /\ \/ Family = "snap" /\ last.act \in {"Build", "Publish", "SetOnChain"}
+            /\ \/ Family \in {"snap", "snapx"} /\ last.act \in {"Build", "Publish", "SetOnChain"}
                \/ Family = "touch" /\ last.act \in {"Rotate", "SetBalance", "Build"} /\ lastId >= 2
                \/ Family = "shrink" /\ last.act \in {"Build", "Publish"} /\ lastId >= 2 /\ Cardinality(snaps[lastId].vals) <= 1
                \/ Family = "proj" /\ last.act \in {"Build", "Publish"}
